@@ -14,7 +14,8 @@ RULE = ('content: catalogue + seeded base content models (nested sequence / choi
         'is built with the candidate as a restriction of the base; if it is accepted every word up to the length bound that '
         'the library accepts for the derived element must be accepted for the base element (the reference proposes the '
         'witnesses, the library confirms them on both sides); facets: (base, derived) pairs of every facet x {tighter, equal, '
-        'looser} over boundary values; attributes: use / fixed / type / wildcard pairs x attribute-set probes; XSD 1.0 and 1.1; a '
+        'looser} over boundary values; redefinition: the same (base, candidate) pairs as a redefined named group, alone and below a '
+        'second redefinition by extension, compared with the original group and with the verdict of the type route; attributes: use / fixed / type / wildcard pairs x attribute-set probes; XSD 1.0 and 1.1; a '
         'case = (base, candidate); non-trivial = accepted candidates that change the base')
 ASSUMPTIONS = [
     'the claim is one-directional: accepted => included; refused-but-included candidates are tallied as over_strict, not violations',
